@@ -38,9 +38,9 @@ CHECKS = {
     "C05": dict(
         engine="E2-explicit-state",
         category="model_checking",
-        text="Explicit-state BFS over sequences of parse requests issued to ONE real DefaultArgsParser: 24 requests (success with flags / values / multi-values, each "
+        text="Explicit-state BFS over sequences of parse requests issued to ONE real DefaultArgsParser: 26 requests (incl. formats that live only for one request) (success with flags / values / multi-values, each "
              "failure kind, lenient partial parses, two formats, the very same RawArgs and format objects parsed leniently and strictly, two commands sharing the "
-             "parser through Config.set_args_parser); fingerprint = full vars() of the parser over its MRO + retained results. The graph closes (76 states), so the "
+             "parser through Config.set_args_parser); fingerprint = full vars() of the parser over its MRO + retained results. The graph closes (84 states; a state cap ends the run if a parser's state never converges), so the "
              "result holds for request sequences of any length; plus every sequence of length <= 4 (thorough 5) without dedup. Oracle: each outcome equals what a "
              "fresh parser in a fresh process gives; results handed out earlier stay unchanged; argv list, RawArgs and every format listing/state unchanged.",
         design_ref="2/C05",
@@ -107,7 +107,7 @@ CHECKS = {
     "C17": dict(
         engine="E2-explicit-state",
         category="model_checking",
-        text="History exploration by process forking: every sequence of <= 3 (thorough 4; 5 on a reduced alphabet) of 15(+1 rotated) command lines (valid, invalid "
+        text="History exploration by process forking: every sequence of <= 3 (thorough 4; 5 on a reduced alphabet) of 20(+1 rotated) command lines (valid, invalid "
              "option, surplus arguments, help, help <cmd>, <cmd> -h, -V, unknown command, lenient command, raising handler at -vvv, ...) on ONE application object in "
              "3 modes (default parsers, one shared parser, the caller re-passing the same RawArgs object); each tree edge is a fork() that executes one more run on "
              "the inherited live process state; per run (status, stdout, stderr, handler record incl. parsed args and IO settings, raw tokens afterwards) must equal a "
@@ -181,7 +181,7 @@ CHECKS = {
              "kinds (plain, library, `code` attributes, explicit/implicit chains to depth 3, exec'd code, module whose file was deleted, KeyboardInterrupt) x raise "
              "point {before output, after stdout write, after stderr write} x every message of <= 2 (thorough 3) fragments over a 12-fragment markup/unicode "
              "alphabet x verbosity x pre-handle listener {none, passes, handles, raises} x ANSI/plain, plus unknown command/option names carrying the same "
-             "messages. Oracle: nothing escapes run; status int in 0..255, 0 iff falsy result, clamp(int(v),1,255) where defined; every Exception -> non-zero status "
+             "messages, plus real StreamOutputStreams with unknown / missing / ASCII encoding names. Oracle: nothing escapes run; status int in 0..255, 0 iff falsy result, clamp(int(v),1,255) where defined; every Exception -> non-zero status "
              "and a non-empty report; the selected handler ran exactly once with freshly parsed args (zero times if a listener handled or raised); no other handler ran.",
         design_ref="2/C04",
         note="Trusted: props/_trace.py (fragment alphabet, scratch modules), pastel/crashtest as dependencies. Not demanded: which stream carries the report, its wording, "
@@ -208,7 +208,9 @@ CHECKS = {
         text="ExceptionTrace.render on the real renderer for exceptions raised from 322 generated source files (file length x failing line position x 28 statement "
              "shapes incl. multi-line calls, triple-quoted strings, tabs, non-ASCII, markup-like literals) x verbosity x UTF-8 on/off x ignore pattern x ANSI/plain; "
              "all messages of <= 2 (thorough 3) fragments x exception kinds x simple/full; cause chains to depth 3; recursion (direct, 2-/3-cycles) to depth 60; "
-             "exec'd and source-less code; the Highlighter alone over 126 clikit files + 300 stdlib modules. Oracle: render never raises; class name and message "
+             "exec'd and source-less code; a source file that vanishes or is rewritten between two renders; one trace object rendered at two verbosities; frames "
+             "pointing into non-Python files; working directory / HOME with regex-special names or removed; BOM, latin-1, CRLF, continuation-line shapes; the "
+             "Highlighter alone over 126 clikit files + 300 stdlib modules. Oracle: render never raises; class name and message "
              "(markup aside) present; snippet numbers consecutive, exactly one marker on the failing line, single-line-token lines verbatim; ignored frames absent "
              "unless debug.",
         design_ref="2/C20",
@@ -223,7 +225,9 @@ CHECKS = {
              "write_line / overwrite / clear() / clear(n) over 1-3 sections with texts below, at and above the width (and two-line texts) up to "
              "depth 6 (thorough: depth 8 with 2 sections, depth 7 with 3). After every operation the emitted bytes are interpreted on a terminal "
              "emulator and the screen must equal sentinel + the sections' logical lines in creation order wrapped at 8 (reference: list of lists). "
-             "The same histories on undecorated outputs (Plain/Null formatter): text + one newline per line, nothing for clear, no control byte.",
+             "The same histories on undecorated outputs (Plain/Null formatter, also a PlainFormatter on an ANSI-capable stream): text + one newline per "
+             "line, nothing for clear, no control byte. Further operations/configurations: an output that is indented when its sections are created, a "
+             "line hidden by its verbosity flag, a second Output with sections of its own in the same process.",
         design_ref="2/C15",
         note="Trusted: mc/term.py (xterm deferred wrap, unbounded height), the list-of-lists reference, props/_c15_bfs.py (level-synchronous BFS with one "
              "global fingerprint set; states rebuilt by replay), fingerprint = canon over the whole Output + model + cursor. clear(n>lines), clear(0), "
@@ -235,10 +239,11 @@ CHECKS = {
         category="model_checking",
         text="The dialogue of the real ChoiceQuestion is explored as a tree of typed-line histories (no dedup): 184 configurations (7 choice lists incl. "
              "duplicated, numeric-looking, case-differing and spaced entries x single/multi x defaults x attempts {unlimited,1,2,3}) x every script over a "
-             "13(+1 rotated)-answer alphabet up to depth 3 (thorough 4), each run on prefix + end of input. Oracle: reference validator from the statement "
+             "14(+1 rotated)-answer alphabet up to depth 3 (thorough 4), each run on prefix + end of input. Oracle: reference validator from the statement "
              "(members only, index/value interchangeable, one error line per rejected entry, failure after exactly N attempts), termination decided by a read "
              "budget on the input stream (never wall-clock); confirmation patterns x answers x defaults; every question kind non-interactive: default, zero reads, "
-             "nothing written; a re-asked question object equals a fresh one.",
+             "nothing written; a re-asked question object equals a fresh one; an I/O re-fed after end of input equals a fresh I/O; sections taken "
+             "before/after interaction is switched off.",
         design_ref="2/C18",
         note="Trusted: the reference validator in props/c18.py; `subprocess` inside question.py is stubbed from outside so no stty is reachable (self-probed). "
              "Corners the statement leaves open (ambiguous values, case, blank list parts, result order, exception class) are accepted either way.",
@@ -267,7 +272,10 @@ CHECKS = {
         text="Complete table, executed on the real classes: every public writing entry point found by reflection (write*/error*/overwrite/clear) "
              "on Output, SectionOutput and every IO kind and their sections x verbosity {0,1,2,4} x flag word {None,0..7} x quiet x ANSI/plain; "
              "text must reach the buffered stream iff not quiet and verbosity >= lowest level named by the flags. The space is finite and is "
-             "enumerated completely in both tiers; a write method added later is picked up by reflection.",
+             "enumerated completely in both tiers; a write method added later is picked up by reflection. Also: the two outputs of an IO given "
+             "different settings, empty text on line methods, and an explicit-state BFS over histories of set_quiet / set_verbosity / write on one output "
+             "and on two sections of one decorated output (depth 5, thorough 7/6; unique text per write: gated-out text must never reach the stream, "
+             "also not when another section redraws).",
         design_ref="2/C10",
         note="Trusted: the 8-line gate reference (lowest_level) and 'reaches the stream' = buffered stream contents changed. Sections get their "
              "verbosity/quiet set on themselves (inheritance from the parent output is not demanded).",
@@ -276,8 +284,8 @@ CHECKS = {
     "C12": dict(
         engine="E2-explicit-state",
         category="model_checking",
-        text="Explicit-state BFS over the real EventDispatcher: every sequence of register/dispatch/query operations up to depth 5 "
-             "(thorough 6; reduced alphabet depth 6/8) is executed on the implementation; after every transition the call order is compared "
+        text="Explicit-state BFS over the real EventDispatcher: every sequence of register / dispatch (with a caller-supplied event and without) / query "
+             "operations up to depth 4 on the full alphabet, 5 on the core and 6 on the reduced one (thorough 5/6/8) is executed on the implementation; after every transition the call order is compared "
              "with a reference stable sort cut at the first stopping listener and every query with the reference list. Exhaustive within the "
              "stated alphabet and depth, which covers registration-after-dispatch, equal-priority stability and a stop at every position.",
         design_ref="2/C12",
